@@ -135,6 +135,59 @@ func ZZ_C17_early_stop() {
 	}
 }
 
+// ZZ_C17_walk_history: Walk has no memory between calls.  The program (its root
+// is the *ast.StmtsStmt the parser returns) is walked once with a callback that
+// fails at its j-th call (j symbolic; j beyond the node count is a complete
+// walk), then walked again: the second walk presents every node exactly once,
+// parents first, and returns nil - whatever happened to the first.
+func ZZ_C17_walk_history() {
+	k := zz.Choose(len(zzKinds))
+	kind := zzKinds[k]
+	var kids, extra []interface{}
+	root := zzBuild(k, zzLeafMakers(1+zz.Choose(2), false, &extra), &kids)
+	prog := &ast.StmtsStmt{Stmts: []ast.Stmt{zzWrap(root, zzKindCat[k]), &ast.ExprStmt{Expr: &ast.IdentExpr{Lit: "tail"}}}}
+	tail := prog.Stmts[1].(*ast.ExprStmt).Expr
+	j := zz.Int()
+	zz.Assume(zz.And(j >= 0, j < 64))
+	stop := errors.New("stop")
+	calls := 0
+	Walk(prog, func(x interface{}) error {
+		calls++
+		if calls-1 == j {
+			return stop
+		}
+		return nil
+	})
+	var log []interface{}
+	err := Walk(prog, func(x interface{}) error {
+		log = append(log, x)
+		return nil
+	})
+	zz.Assert(err == nil, "C17.history.walk-after-aborted-walk/no-error/"+kind)
+	if err != nil {
+		return
+	}
+	rootAt, rootCount := zzIndexOf(log, root)
+	zz.Assert(rootCount == 1, "C17.history.walk-after-aborted-walk/node-presented-once/"+kind)
+	for _, c := range append(append(kids, extra...), tail) {
+		at, cnt := zzIndexOf(log, c)
+		zz.Assert(cnt == 1, "C17.history.walk-after-aborted-walk/child-presented-once/"+kind)
+		if cnt >= 1 && rootCount >= 1 && c != tail {
+			zz.Assert(at > rootAt, "C17.history.walk-after-aborted-walk/parent-before-child/"+kind)
+		}
+	}
+	// and a third walk that is aborted again returns its own error at its own index
+	calls = 0
+	err = Walk(prog, func(x interface{}) error {
+		calls++
+		if calls == 2 {
+			return stop
+		}
+		return nil
+	})
+	zz.Assert(err == stop && calls == 2, "C17.history.abort-after-complete-walk/"+kind)
+}
+
 // zzWitness: one parseable snippet per node kind, so that a finding on a kind
 // always has a source-level witness (checked by the native test below).
 var zzWitness = map[string]string{
